@@ -599,7 +599,9 @@ class C10(SeqCheck):
                   "instant are excluded (the property leaves them open); udp.Conn and vnet.UDPConn are exercised without sockets/routers (their read "
                   "side does not touch them)")
     rule = ("per connection type (5, round robin): 8-38 script events at strictly increasing instants (gaps 1/3/10/50 ms, 2 s): SetReadDeadline or "
-            "SetDeadline to zero / 1 s ago / +10 ms / +25 ms / +2 s / +1 h, arrival of an item, start of a read; all instants distinct from all "
+            "SetDeadline to zero / 1 s ago / +10 ms / +25 ms / +2 s / +1 h / +280 years, arrival of an item, start of a read (a zero-length read "
+            "now and then while the deadline has passed); for the packet buffer one script in three also closes the buffer in its later part "
+            "(what it holds stays readable, then reads report EOF) and goes on setting deadlines and reading; all instants distinct from all "
             "deadline instants; non-trivial = at least one timeout and one data read; distinct = distinct (type, script)")
     trusted = ["overlay files harness/overlay/vnet/verif_export.go and harness/overlay/udp/verif_export.go (detached sockets, delivery hooks)",
                "testing/synctest fake clock"]
